@@ -91,6 +91,34 @@ func c12(c *wk.Ctx) {
 		}
 		idx++
 	}
+	// ---- A2. paths whose directory does not exist: Store must fail cleanly (the property only promises paths whose directory exists)
+	for k := 0; k < 20; k++ {
+		if c.Mine(idx) {
+			r := c.Rand(idx)
+			p := filepath.Join(base, fmt.Sprintf("missing-dir-%d", k), "sub", "s.json")
+			c.Begin(idx, "no-dir "+p)
+			var err error
+			pan, pm, st := wk.Guard(func() { err = session.NewFromFile(p).Store(c12session(r)) })
+			if pan {
+				c.Viol("C12", idx, "nodir/panic/"+st, pm, p)
+			} else if err == nil {
+				if _, serr := os.Stat(p); serr != nil {
+					c.Viol("C12", idx, "nodir/store-reported-success-without-file", "Store into a non-existent directory returned nil but no file exists", p)
+				}
+			}
+			var got *session.Session
+			pan, pm, st = wk.Guard(func() { got, err = session.NewFromFile(p).Load() })
+			if pan {
+				c.Viol("C12", idx, "nodir/panic/"+st, pm, p)
+			} else if err == nil && got != nil {
+				if _, serr := os.Stat(p); serr != nil {
+					c.Viol("C12", idx, "nodir/load-invented-session", "Load of a path in a non-existent directory returned a session", p)
+				}
+			}
+			c.Distinct("nodir", k)
+		}
+		idx++
+	}
 	// ---- B. histories on one path through 1..3 loaders, native and coarse-mtime
 	n = c.Pick(300, 6000)
 	for k := 0; k < n; k++ {
